@@ -46,10 +46,21 @@ ZeroChannel(name) == [n |-> name, v |-> FZero]
 
 (* ---------- declared shape ---------- *)
 G == obj.grp
-PLabels == GetParam(G, sPOINT, sLABELS).v
-ALabels == GetParam(G, sANALOG, sLABELS).v
-PUsed == Val1(G, sPOINT, sUSED)
-AUsed == Val1(G, sANALOG, sUSED)
+\* (total: an object loaded from a file may lack any of them - "Optotrak" files carry an ANALOG group without parameters)
+PLabels == IF HasT(G, sPOINT, sLABELS, TCHAR) THEN GetParam(G, sPOINT, sLABELS).v ELSE <<>>
+ALabels == IF HasT(G, sANALOG, sLABELS, TCHAR) THEN GetParam(G, sANALOG, sLABELS).v ELSE <<>>
+PUsed == IF Has1(G, sPOINT, sUSED, TINT) THEN Val1(G, sPOINT, sUSED) ELSE 0
+AUsed == IF Has1(G, sANALOG, sUSED, TINT) THEN Val1(G, sANALOG, sUSED) ELSE 0
+\* The frame and column mutators end in the updaters, which rewrite the derived POINT / ANALOG parameters when the number of
+\* points / channels changes: an object that lacks what they are going to read (only a loaded file can) is refused before anything
+\* is touched (C10; checkUpdatable in src/ezc3d.cpp). pc / ac: the call may change the number of points / channels.
+UpdatableFor(pc, ac) ==
+  /\ Has1(G, sPOINT, sFRAMES, TINT) /\ Has1(G, sPOINT, sUSED, TINT) /\ Has1(G, sANALOG, sUSED, TINT)
+  /\ (pc => /\ HasParam(G, sPOINT, sDESCRIPTIONS) /\ HasParam(G, sPOINT, sUNITS)
+            /\ IF Len(obj.frm) > 0 THEN HasParam(G, sPOINT, sLABELS) ELSE HasT(G, sPOINT, sLABELS, TCHAR))
+  /\ (ac => /\ HasParam(G, sANALOG, sDESCRIPTIONS)
+            /\ IF Len(obj.frm) > 0 THEN HasParam(G, sANALOG, sLABELS) ELSE HasT(G, sANALOG, sLABELS, TCHAR)
+            /\ HasT(G, sANALOG, sSCALE, TFLOAT) /\ HasT(G, sANALOG, sOFFSET, TINT) /\ HasT(G, sANALOG, sUNITS, TCHAR))
 NF == Len(obj.frm)
 DeclSubs == IF AUsed > 0 THEN obj.hdr.perframe ELSE 0
 ButLast(s) == SubSeq(s, 1, Len(s) - 1)
@@ -77,12 +88,16 @@ FrameOfKind(kind, tag) ==
     [] kind = "undeclP"-> MkFrame(<<XName>>, DeclSubs, ALabels, tag)         \* a point although no point is declared
     [] kind = "nopts"  -> MkFrame(<<>>, DeclSubs, ALabels, tag)
     [] kind = "noan"   -> MkFrame(PLabels, 0, <<>>, tag)
+    \* an occluded marker as applications store it: NaN coordinates (quiet NaN 7FC00000, and a signalling one with a payload);
+    \* values are opaque bit patterns for the library, in memory and in the file
+    [] kind = "nan"    -> LET f == MkFrame(PLabels, DeclSubs, ALabels, tag) IN
+                          [f EXCEPT !.p[1].v = <<<<0, 0, 192, 127>>, <<1, 0, 128, 255>>, @[3], <<0, 0, 128, 191>>>>]
 KindApplies(kind) ==
   CASE kind \in {"lesspt", "rename"} -> PUsed >= 1 /\ Len(PLabels) = PUsed
     [] kind = "morept" -> PUsed >= 1
     [] kind \in {"lessch", "morech"} -> AUsed >= 1 /\ DeclSubs >= 1
     [] kind \in {"lessch0", "morech0"} -> AUsed >= 1 /\ obj.hdr.perframe = 0
-    [] kind \in {"padded", "ctorpad"} -> PUsed >= 1
+    [] kind \in {"padded", "ctorpad", "nan"} -> PUsed >= 1
     [] kind = "dupnames" -> PUsed = 0 /\ PLabels = <<>>
     [] kind = "undeclA" -> AUsed = 0 /\ ALabels = <<>>
     [] kind = "undeclP" -> PUsed = 0 /\ PLabels = <<>>
@@ -96,7 +111,9 @@ FrameOutcome(f) ==
   ELSE IF \E i \in 1..Len(PLabels) : PLabels[i] \notin SeqToSet(PointNames(f)) THEN "invalid_argument"
   ELSE IF Len(f.p) > 0 /\ FIsZero(Val1(G, sPOINT, sRATE)) THEN "runtime_error"
   ELSE IF Len(f.a) > 0 /\ FIsZero(Val1(G, sANALOG, sRATE)) THEN "runtime_error"
+  ELSE IF ~Has1(G, sANALOG, sUSED, TINT) THEN "invalid_argument"          \* ANALOG:USED is read here ("Optotrak" files have none)
   ELSE IF Len(f.a) # 0 /\ ~(AUsed = 0 /\ obj.hdr.perframe = 0) /\ Len(f.a[1]) # AUsed THEN "runtime_error"
+  ELSE IF ~UpdatableFor(Len(f.p) # PUsed, (IF Len(f.a) = 0 THEN 0 ELSE Len(f.a[1])) # AUsed) THEN "invalid_argument"
   ELSE "ok"
 \* Data::frame (src/Data.cpp:130-139): append / replace / extend with empty frames
 Store(frm, f, idx) ==
@@ -142,6 +159,7 @@ PointColsOutcome(frames) ==
   ELSE IF Len(frames[1].p) = 0 THEN "invalid_argument"
   ELSE IF \E i \in 1..Len(frames[1].p) : frames[1].p[i].n \in SeqToSet(PLabels) THEN "invalid_argument"
   ELSE IF \E f \in 1..Len(frames) : Len(frames[f].p) < Len(frames[1].p) THEN "out_of_range"
+  ELSE IF ~UpdatableFor(TRUE, FALSE) THEN "invalid_argument"
   ELSE "ok"
 AddPointColsF(frames, op) ==
   LET out == PointColsOutcome(frames) IN
@@ -155,6 +173,7 @@ DeclPoint(name) ==
   /\ LET op == [op |-> "DeclPoint", n |-> name] IN
      IF NF > 0
        THEN AddPointColsF([f \in 1..NF |-> [p |-> <<ZeroPoint(TrimRight(name))>>, a |-> <<>>]], op)
+       ELSE IF ~UpdatableFor(TRUE, FALSE) THEN Done(obj, op, "invalid_argument", <<>>)
        ELSE Done(UpdateParameters(obj, obj.frm, <<TrimRight(name)>>, <<>>), op, "ok", <<>>)
   /\ UNCHANGED callers
 
@@ -197,6 +216,7 @@ AnalogColsOutcome(frames) ==
   ELSE IF \E i \in 1..Len(frames[1].a[1]) : frames[1].a[1][i].n \in SeqToSet(ALabels) THEN "invalid_argument"
   ELSE IF \E f \in 1..NF : Len(frames[f].a) < obj.hdr.perframe \/ Len(obj.frm[f].a) < obj.hdr.perframe THEN "out_of_range"
   ELSE IF \E f \in 1..NF, s \in 1..obj.hdr.perframe : Len(frames[f].a[s]) < Len(frames[1].a[1]) THEN "out_of_range"
+  ELSE IF ~UpdatableFor(FALSE, TRUE) THEN "invalid_argument"
   ELSE "ok"
 AddAnalogColsF(frames, op) ==
   LET out == AnalogColsOutcome(frames) IN
@@ -212,6 +232,7 @@ DeclAnalog(name) ==
   /\ LET op == [op |-> "DeclAnalog", n |-> name] IN
      IF NF > 0
        THEN AddAnalogColsF([f \in 1..NF |-> [p |-> <<>>, a |-> [s \in 1..obj.hdr.perframe |-> <<ZeroChannel(TrimRight(name))>>]]], op)
+       ELSE IF ~UpdatableFor(FALSE, TRUE) THEN Done(obj, op, "invalid_argument", <<>>)
        ELSE Done(UpdateParameters(obj, obj.frm, <<>>, <<TrimRight(name)>>), op, "ok", <<>>)
   /\ UNCHANGED callers
 
@@ -288,11 +309,16 @@ SetParamAlias(gname, sg, sp) ==
 AddStoredFrame(src, idx) ==
   /\ src \in 1..NF /\ (idx = -1 => NF < MaxFrames) /\ idx < MaxFrames
   /\ AddFrameF(obj.frm[src], idx, [op |-> "AddFrameAlias", src |-> src - 1, idx |-> idx]) /\ UNCHANGED callers
+DonorFile(p) == LET c == [DefaultObject EXCEPT !.grp = Append(@, [n |-> <<68, 79, 78, 79, 82>>, d |-> <<>>, l |-> 0, p |-> <<p>>])]
+                IN EncodeWith(c, DefaultLayout(Len(c.grp)))
 SetParam(gname, pspec) ==
-  NoCaseCollision(gname, pspec.n) /\
+  (WithReload => NoCaseCollision(gname, pspec.n)) /\        \* in memory names are compared exactly: "a" and "A" are two parameters
   LET built == ApplySets([MkParam(pspec.n, pspec.d) EXCEPT !.l = pspec.l], pspec.sets)
       p == built.p
-      op == [op |-> "SetParam", g |-> gname, p |-> pspec]
+      \* a byte-typed Parameter has no setter: the caller can only hold one that it took from a loaded object (the "donor" file, generated
+      \* here by the encoder, carries exactly that parameter); handing it to c3d::parameter is API construction like any other
+      hasByte == \E i \in 1..Len(pspec.sets) : pspec.sets[i].t = TBYTE
+      op == IF hasByte THEN [op |-> "SetParam", g |-> gname, p |-> pspec, donor |-> DonorFile(p)] ELSE [op |-> "SetParam", g |-> gname, p |-> pspec]
       out == SetParamOutcome(gname, p) IN
   /\ IF out # "ok" THEN Done(obj, op, out, built.outs)
      ELSE LET grp1 == IF GroupIdx(G, gname) = 0 THEN Append(G, MkGroup(gname, <<>>)) ELSE G
@@ -333,6 +359,13 @@ CallerMutate(k, tag) ==
   /\ MutFrame(callers[k], tag) # callers[k]
   /\ callers' = [callers EXCEPT ![k] = MutFrame(@, tag)]
   /\ lastOp' = [op |-> "CallerMutate", c |-> k] @@ MutOp(callers[k], tag) /\ hist' = Append(hist, lastOp')
+  /\ lastOut' = "ok" /\ lastSets' = <<>> /\ lastRes' = <<>> /\ UNCHANGED <<obj, inScope>>
+\* the caller adds a point to its own frame object (once): whatever it shares with a stored frame would grow too
+CallerGrow(k) ==
+  /\ Len(callers[k].p) > 0 /\ XName \notin SeqToSet(PointNames(callers[k]))
+  /\ LET pt == MkPoint(XName, 9, 9) IN
+     /\ callers' = [callers EXCEPT ![k].p = Append(@, pt)]
+     /\ lastOp' = [op |-> "CallerMutate", c |-> k, kind |-> "addpt", pt |-> pt] /\ hist' = Append(hist, lastOp')
   /\ lastOut' = "ok" /\ lastSets' = <<>> /\ lastRes' = <<>> /\ UNCHANGED <<obj, inScope>>
 AddCallerFrame(k, idx) ==
   /\ (idx = -1 => NF < MaxFrames) /\ idx < MaxFrames
@@ -416,12 +449,18 @@ Get(q) ==
   /\ lastOp' = q /\ lastOut' = r.out /\ lastRes' = r.res /\ lastSets' = <<>> /\ hist' = hist
   /\ UNCHANGED <<obj, callers, inScope>>
 
+\* c3d::print(): writes the header, every parameter and every frame to the standard output; read-only (its text is not modelled:
+\* the build matrix of C19 compares a hash of it between builds, C13 runs it under the sanitizers on every reachable object)
+PrintObj ==
+  /\ lastOp' = [op |-> "Print"] /\ lastOut' = "ok" /\ lastRes' = <<>> /\ lastSets' = <<>> /\ hist' = hist
+  /\ UNCHANGED <<obj, callers, inScope>>
+
 (* ---------- save to a file and load it back (C01, C03, C04, C14) ---------- *)
 \* write() leaves the object alone and produces WriterModel(obj); c3d(path) builds ReaderModel(bytes).
 \* Enabled where the reader model is defined for the written bytes (every byte it consumes exists).
 ReloadPath == "reload.c3d"
 Reload ==
-  /\ Mand(obj.grp)
+  /\ MandHeader(obj.grp)
   /\ IF ~Fits(obj) THEN Done(obj, [op |-> "Reload", path |-> ReloadPath], "range_error", <<>>)     \* refused before anything is written
      ELSE LET b == WriterModel(obj)  r == ReaderModel(b) IN
           /\ ReaderDefined(b) /\ r.out \in {"ok", "ios_failure", "invalid_argument"}
@@ -455,11 +494,13 @@ Next ==
   \/ \E g \in LockNames, l \in {0, 1} : LockGroup(g, l)
   \/ \E k \in CallerIds, kind \in FrameKinds, t \in Tags : ShapeReady /\ CallerNew(k, kind, t)
   \/ \E k \in CallerIds, t \in Tags : CallerMutate(k, t)
+  \/ \E k \in CallerIds : CallerGrow(k)
   \/ \E k \in CallerIds, i \in IdxRange : AddCallerFrame(k, i)
   \/ \E f \in 1..MaxFrames, t \in Tags : WithEdits /\ EditStored(f, IF t = 0 THEN 200 + f ELSE t)
   \/ \E g \in AliasGroups : SetParamAlias(g, 1, 1) \/ SetParamAlias(g, 2, 2)      \* POINT:USED, ANALOG:LABELS handed back to the object
   \/ \E s \in 1..MaxFrames, i \in IdxRange : WithAlias /\ AddStoredFrame(s, i)
   \/ Lookups /\ \E q \in Queries(obj) : Get(q)
+  \/ Lookups /\ PrintObj
   \/ WithReload /\ Reload
   \/ \E i \in 1..Len(Files) : LoadBytes(i)
 
@@ -498,7 +539,7 @@ ColumnsOK ==
              /\ SubSeq(obj'.frm[f].p, 1, Len(obj.frm[f].p)) = obj.frm[f].p
              /\ Len(obj'.frm[f].p) = Len(obj.frm[f].p) + (IF lastOp'.op = "DeclPoint" THEN 1 ELSE Len(lastOp'.frames[1].p)) ]_vars
 \* C08: caller-side edits never reach the object
-CallerIndependent == [][lastOp'.op \in {"CallerNew", "CallerMutate"} => obj' = obj]_vars
+CallerIndependent == [][lastOp'.op \in {"CallerNew", "CallerMutate"} => obj' = obj]_vars        \* (CallerGrow is recorded as a CallerMutate)
 \* C07 (converse clause): a frame that matches the declared names, counts, rates and ratio is accepted
 ConformingAccepted ==
   LET f == FrameOfKind("conf", 1)
@@ -552,7 +593,7 @@ SaveIdempotent ==
         /\ WriterModel(r2.obj) = b2                                 \* and the next save is byte-identical
 \* the three I/O invariants with the file model evaluated once per state (TLC does not share work between invariants)
 IOInv ==
-  (Mand(obj.grp) /\ Fits(obj) /\ ~KF_GapFramesOnDisk(obj) /\ ~KF_ZeroPointRateWithAnalogs(obj)) =>
+  (MandHeader(obj.grp) /\ Fits(obj) /\ ~KF_GapFramesOnDisk(obj) /\ ~KF_ZeroPointRateWithAnalogs(obj)) =>
      LET b1 == WriterModel(obj)  r1 == ReaderModel(b1)
          c01 == r1.out = "ok" /\ r1.end = Len(b1) /\ Content(r1.obj) = Content(obj)
          c03 == SelfConsistentKF(b1, obj)
